@@ -43,6 +43,34 @@ structure MT (σ : Type) where
   buffered : Bool := true
   retired : Bool := false
 
+/-! ### the optimisation hints as `MatchDirective.attach` reads them
+    (`value.get('buffer', '').lower() == 'false'` …; the comparison strings are ASCII, and no
+    non-ASCII character lower-cases to one of their letters, so ASCII lower-casing is exact) -/
+
+def asciiLower (c : Char) : Char :=
+  if 'A' ≤ c ∧ c ≤ 'Z' then Char.ofNat (c.toNat + 32) else c
+
+def hintEq (v : Option Str) (lit : Str) : Bool :=
+  match v with
+  | none => false
+  | some s => s.map asciiLower == lit
+
+structure Hints where
+  notBuffered : Bool
+  matchOnce : Bool
+  notRecursive : Bool
+  deriving DecidableEq, Repr, Inhabited
+
+/-- the `buffer=`, `once=`, `recursive=` attribute values (`none`: attribute absent) -/
+def parseHints (b o r : Option Str) : Hints :=
+  { notBuffered := hintEq b ['f', 'a', 'l', 's', 'e'],
+    matchOnce := hintEq o ['t', 'r', 'u', 'e'],
+    notRecursive := hintEq r ['f', 'a', 'l', 's', 'e'] }
+
+def MT.ofHints {σ} (step : σ → Event → Bool → σ × Bool) (st : σ) (body : List BItem) (h : Hints) : MT σ :=
+  { step := step, st := st, body := body, once := h.matchOnce, recursive := !h.notRecursive,
+    buffered := !h.notBuffered }
+
 /-- what `_flatten` hands to `_match`: an event, or the moment a `py:match` directive registers -/
 inductive Item (σ : Type) where
   | ev (e : Event)
